@@ -18,7 +18,7 @@ import numpy as np
 import common
 from props import c14 as H
 
-LEVEL = 'other'
+LEVEL = 'proof'
 
 EPS = Fr(common.EPS)
 C_FFT = 2048        # |getModes - dense DFT| / (eps * sum|x_j|)   (FFTPACK is a contract)
